@@ -1,6 +1,31 @@
-(** C09 — placeholder: the codec theorems shared by the assembler properties are in Asm.v / props/C02.v. *)
-From Coq Require Import ZArith Lia.
-Open Scope Z_scope.
-Theorem C09_placeholder : forall v : Z, v mod 256 = v mod 256.
-Proof. reflexivity. Qed.
-Print Assumptions C09_placeholder.
+(** C09 — Intel and AT&T renderings denote the same instruction.  Property theorems only.
+    Proved here (the mnemonic / size-suffix half of the conversion, model Att.v on the tables regenerated from /repo, tied to
+    mnemo_to_att / mnemo_from_att by exact-output correspondence over the whole vocabulary): for every mnemonic of the tables,
+    every operand-size class, memory or register first operand and both values of the st(0)-destination flag, the AT&T spelling
+    converts back to the same Intel mnemonic and, where a size suffix was chosen, to the same operand size — including the
+    historical fsub/fdiv reversal, applied in both directions — except fisttp m16 (refuted; known finding).
+    NOT proved: operand order, sigils and memory-operand layout of the two renderers and both grammars; those clauses, and
+    acceptance by GNU as, are decided on the implementation (harness/p_c09.py). *)
+From Coq Require Import List String Bool.
+From Mx Require Import Att AttFacts.
+From MxGen Require Import AttTables.
+Import ListNotations.
+Open Scope string_scope.
+
+Theorem C09_att_mnemonic_round_trip : forall name a, In name (vocab att_tables) -> In a (infos name) ->
+  valid att_tables name a = true -> att_known name a = false -> rt_ok att_tables name a = true.
+Proof. exact att_roundtrip. Qed.
+Print Assumptions C09_att_mnemonic_round_trip.
+
+Theorem C09_fisttp_word_refuted : mnemo_to_att att_tables "fisttp" (mkai Su16 Su32 true false) = Some "fisttpw" /\ mnemo_from_att att_tables "fisttpw" false = FRaise.
+Proof. exact fisttp_word_refuted. Qed.
+Print Assumptions C09_fisttp_word_refuted.
+
+Theorem C09_fsub_fdiv_reversal : mnemo_to_att att_tables "fsub" (mkai Sother Sother false true) = Some "fsubr" /\ mnemo_from_att att_tables "fsubr" true = FOk "fsub" None /\
+                                 mnemo_to_att att_tables "fsub" (mkai Sother Sother false false) = Some "fsub".
+Proof. exact fsub_reversal. Qed.
+Print Assumptions C09_fsub_fdiv_reversal.
+
+Example C09_nonvacuous : mnemo_to_att att_tables "add" (mkai Su16 Su32 true false) = Some "addw" /\ mnemo_from_att att_tables "addw" false = FOk "add" (Some Su16) /\
+  mnemo_to_att att_tables "movsx" (mkai Su32 Su08 false false) = Some "movsbl" /\ mnemo_from_att att_tables "movsbl" false = FOk "movsx" (Some Su08).
+Proof. vm_compute. repeat split; reflexivity. Qed.
